@@ -2119,8 +2119,15 @@ getattr_disallow(trait_object *trait, has_traits_object *obj, PyObject *name)
 static PyObject *
 getattr_constant(trait_object *trait, has_traits_object *obj, PyObject *name)
 {
-    Py_INCREF(trait->default_value);
-    return trait->default_value;
+    /* A default value that has never been set is None, as it is for
+       'default_value_for' and for the 'default_value' method. */
+    PyObject *result = trait->default_value;
+
+    if (result == NULL) {
+        result = Py_None;
+    }
+    Py_INCREF(result);
+    return result;
 }
 
 /*-----------------------------------------------------------------------------
